@@ -10,7 +10,9 @@ EXPLANATION = (
     "min(n_word, n_word_max) before an argument-less closing resize, and n_word_max flows from config through __init__ -> _init_size -> set_best_sizes after config.update; "
     "R4 the integer-length search is the bit-shift loop (no logarithm); inferred sizes derive from the normaliser's output and the object holds the caller's sizes when it is "
     "consulted. DECLINED (not decided): that the two search loops return the minimal exact fraction length and integer length - loop arithmetic over float residues "
-    "and shifted integers has no invariant generator in reach; this is the larger half of C06.")
+    "and shifted integers has no invariant generator in reach; this is the larger half of C06."
+    ' Added after the third round of seeded changes: both length searches are bounded by n_word_max - sign (not by the requested word); read-back conversions (C16.R2); no class-level state (C20.R7).'
+)
 ASSUMPTIONS = ["the fraction search returns E = exact fraction length and the shift loop the required integer bits (the declined part)"]
 TRUSTED = ["CPython ast", "fxlint term normaliser"]
 
